@@ -47,6 +47,9 @@ type Ctx struct {
 	Canary   map[string]bool // rule -> positive canary fired
 	start    time.Time
 	broken   []string
+
+	missingAnchors []string          // anchors not found in this run
+	anchorSubst    map[string]string // second pass: missing anchor → the function it was merged into
 }
 
 func NewCtx(p *Program, prop, tier string) *Ctx {
@@ -79,12 +82,67 @@ func (c *Ctx) Undecided(rule, construct, why string) {
 // Anchor resolves a function anchor; missing → undecided.
 func (c *Ctx) Anchor(key string) *ssa.Function {
 	fn := c.P.Fn(key)
+	if (fn == nil || len(fn.Blocks) == 0) && c.anchorSubst[key] != "" {
+		fn = c.P.Fn(c.anchorSubst[key])
+		key = c.anchorSubst[key] + " (holds the body of the removed " + key + ")"
+	}
 	if fn == nil || len(fn.Blocks) == 0 {
+		c.missingAnchors = append(c.missingAnchors, key)
 		c.Undecided("anchor", key, "anchor function not found in the analysed tree")
 		return nil
 	}
 	c.Anchors = append(c.Anchors, key)
 	return fn
+}
+
+// mergedInto: for every anchor this run missed, the one surviving production function that
+// called it when the rules were written (where its body must have gone if it was merged into
+// its caller); nil unless every miss has exactly one.
+func (c *Ctx) mergedInto() map[string]string {
+	if len(c.missingAnchors) == 0 || len(c.broken) != len(c.missingAnchors) {
+		return nil
+	}
+	knownFunc("")
+	out := map[string]string{}
+	for _, a := range c.missingAnchors {
+		var alive []string
+		for _, k := range knownCallers[a] {
+			if fn := c.P.Fn(k); fn != nil && IsProd(fn) && len(fn.Blocks) > 0 && !strings.HasSuffix(fn.Pkg.Pkg.Path(), "_test") && !strings.HasSuffix(c.P.Fset.Position(fn.Pos()).Filename, "_test.go") {
+				alive = append(alive, k)
+			}
+		}
+		if len(alive) != 1 {
+			return nil
+		}
+		out[a] = alive[0]
+	}
+	return out
+}
+
+// clean: no obligation is violated (beyond the recorded findings) or undecided.
+func (c *Ctx) clean(verifDir string) bool {
+	if len(c.broken) > 0 {
+		return false
+	}
+	known, err := loadKnown(filepath.Join(verifDir, "known_findings.json"))
+	if err != nil {
+		return false
+	}
+	for _, o := range c.Obs {
+		if o.Status != "VIOLATED" {
+			continue
+		}
+		matched := false
+		for _, k := range known {
+			if k.Status == "known" && k.Property == c.Prop && k.Rule == o.Rule && k.Construct == o.Construct {
+				matched = true
+			}
+		}
+		if !matched {
+			return false
+		}
+	}
+	return true
 }
 
 func (c *Ctx) Count(what string, n int) { c.Analysed[what] += n }
